@@ -2,7 +2,7 @@
 C11 — the simulation: every step of the index-based model is matched by the index-free reference semantics
 of the specification oracle, which therefore never reports a violation on a model trace.
 -/
-import NV.C11.Lemmas
+import NV.C11.Bridge
 
 namespace NV.C11
 
@@ -60,7 +60,8 @@ theorem sim_disable {w : World} {j : JState} (h : RP w j) (x : Nat) (hx : w.dead
   have hsm : ¬ ((0 : Int) > shrtMax) := by decide
   have hfr := jDisable_frame j x
   have hfl := jDisable_fields j x
-  unfold setHeartBeat
+  rw [setHeartBeat_eq_ref]
+  unfold setHeartBeatRef
   simp only [hx, hsm, if_false, Bool.false_eq_true, if_true]
   cases hi : idxOf x w.hbs with
   | none =>
@@ -212,7 +213,8 @@ theorem sim_set {w : World} {j : JState} (h : RP w j) (x : Nat) (n : Int) (hx : 
     have hfr := jSet_frame j x n
     have hgt : ¬ (satEfun n > shrtMax) := by omega
     have hall : hasOb x w.hbs = hasOb x j.all := by rw [h0.hbs]; rfl
-    unfold setHeartBeat
+    rw [setHeartBeat_eq_ref]
+    unfold setHeartBeatRef
     simp only [hx, hgt, hz, if_false, Bool.false_eq_true]
     unfold jSet
     simp only [hz, if_false]
@@ -285,7 +287,7 @@ theorem sim_disableAlive {w : World} {j : JState} (h : RP w j) (x : Nat) :
     have : jDisableAlive j x = jDisable j x := by unfold jDisableAlive; rw [← h.1.dead, hd]; simp
     rw [this]; exact sim_disable h x hd
   | true =>
-    have h1 : setHeartBeat w x 0 = w := by unfold setHeartBeat; rw [if_pos hd]
+    have h1 : setHeartBeat w x 0 = w := by rw [setHeartBeat_eq_ref]; unfold setHeartBeatRef; rw [if_pos hd]
     have h2 : jDisableAlive j x = j := by unfold jDisableAlive; rw [← h.1.dead, hd]; simp
     rw [h1, h2]; exact h
 
@@ -383,7 +385,7 @@ theorem sim_stepOp {w : World} {j : JState} (h : RP w j) (ha : opAllowed j = tru
       have hq := query_eq hs.1 t
       have hst : stepOp w self (.shb t n) =
           (setHeartBeat w t (satEfun n), [.shb self t n (jQuery (jSet j t n) t)], .ok) := by
-        simp [stepOp, hat, hq]
+        simp [stepOp, hat, hq, gen_efunSat_eq]
       rw [hst]
       exact stepOK_one (by decide) (by simp [judge1, ha, hjt]) hs (jSet_frame j t n)
   | q t =>
@@ -460,7 +462,7 @@ theorem sim_stepOp {w : World} {j : JState} (h : RP w j) (ha : opAllowed j = tru
               known := new :: (setHeartBeat w (if kind = 0 then 0 else 1) 0).known,
               nofn := if kind = 0 then (setHeartBeat w (if kind = 0 then 0 else 1) 0).nofn
                       else new :: (setHeartBeat w (if kind = 0 then 0 else 1) 0).nofn } new (satEfun n)) new)], .ok) := by
-        simp only [stepOp]; rw [if_neg (by rw [hk]; decide)]
+        simp only [stepOp, gen_efunSat_eq]; rw [if_neg (by rw [hk]; decide)]
       rw [hst]
       generalize setHeartBeat w (if kind = 0 then 0 else 1) 0 = w1 at h1 ⊢
       generalize hj1 : jDisableAlive j (if kind = 0 then 0 else 1) = j1 at h1 hf1
@@ -613,10 +615,10 @@ theorem judge1_beatEnd_adv {j : JState} {o : Nat} (he : j.expect = .inBeat) (ht 
 
 /-- the while loop of call_heart_beat against the oracle's `advance`: at the loop head heart_beat_index is the
     number of entries already served and num_hb_to_do - heart_beat_index the number still to serve -/
-theorem sim_round (sc : Scripts) : ∀ (fuel : Nat) (w : World) (j : JState),
+theorem sim_roundRef (sc : Scripts) : ∀ (fuel : Nat) (w : World) (j : JState),
     R0 w j → j.inRound = true → w.idx = (j.done.length : Int) →
     w.todo = (j.done.length : Int) + (j.pend.length : Int) → j.pend ≠ [] → j.pend.length ≤ fuel →
-    Done (round sc fuel w).1 ((round sc fuel w).2.foldl judge1 (advance j)) j := by
+    Done (roundRef sc fuel w).1 ((roundRef sc fuel w).2.foldl judge1 (advance j)) j := by
   intro fuel
   induction fuel with
   | zero =>
@@ -634,7 +636,7 @@ theorem sim_round (sc : Scripts) : ∀ (fuel : Nat) (w : World) (j : JState),
       have hneg : ¬ (w.idx < 0) := by omega
       have hget : w.hbs[w.idx.toNat]? = some x := by rw [hn, hhbs]; exact get_mid _ _ _
       have hlen : j.pend.length = rest.length + 1 := by rw [hp]; rfl
-      unfold round
+      unfold roundRef
       simp only [hneg, if_false, hget]
       cases hf : (!j.nofn.contains x.ob && decide (wrap16 (x.ticks - 1) < 1)) with
       | true =>
@@ -724,7 +726,7 @@ theorem sim_round (sc : Scripts) : ∀ (fuel : Nat) (w : World) (j : JState),
                   omega
                 have hih := ih { w2 with idx := w2.idx + 1 } j3 hR03 hin3 (by show w2.idx + 1 = _; omega)
                   (by show w2.todo = _; omega) hpne hple
-                cases hrr : round sc fuel { w2 with idx := w2.idx + 1 } with
+                cases hrr : roundRef sc fuel { w2 with idx := w2.idx + 1 } with
                 | mk w4 evs' =>
                   rw [hrr] at hih
                   simp only [List.foldl_cons, List.foldl_append, hj2, hj3]
@@ -773,6 +775,12 @@ theorem sim_round (sc : Scripts) : ∀ (fuel : Nat) (w : World) (j : JState),
             (by show w.todo = ((j.done ++ [_]).length : Int) + (rest.length : Int); simp; omega) hpne
             (by show rest.length ≤ fuel; omega)
           exact ⟨hih.1, hih.2.1, hih.2.2.1, hih.2.2.2⟩
+
+theorem sim_round (sc : Scripts) (fuel : Nat) (w : World) (j : JState)
+    (h0 : R0 w j) (hin : j.inRound = true) (hidx : w.idx = (j.done.length : Int))
+    (htodo : w.todo = (j.done.length : Int) + (j.pend.length : Int)) (hne : j.pend ≠ []) (hle : j.pend.length ≤ fuel) :
+    Done (round sc fuel w).1 ((round sc fuel w).2.foldl judge1 (advance j)) j := by
+  rw [round_eq_ref]; exact sim_roundRef sc fuel w j h0 hin hidx htodo hne hle
 
 /-- invariant between top-level commands -/
 def Idle (w : World) (j : JState) : Prop :=
